@@ -1,1 +1,44 @@
-PROP = {'coq': ['theories/Properties/C03.v'], 'suites': [{'bin': 'obs-numscript', 'corpus': 'numscript'}], 'trusted': ['hand-written models Numscript/{Funding,VM,Syntax,Compiler,Run,Sem}.v of internal/machine/{funding,allotment,portion,monetary}.go, vm/{machine,run,stack}.go, script/compiler/*.go; tied on every run by correspondence: real compiler + machine vs model on generated programs x variable maps x stores (bytecode, resources, sources, needed balances, lock sets, postings, metadata, printed values, error class, panic flag), and Sem (source semantics) vs the real run end to end', 'the real ANTLR lexer/parser produces the AST the model consumes (parse-tree dump harness/nsx/ast.go is mechanical glue); machine.NewValueFromString / ParsePortionSpecific enter as harness-computed tables', 'math/big, encoding/json are exercised, not modelled; Go aliasing inside a shared *Program is covered by the run-twice oracle only'], 'assumptions': [], 'manifest': {'text': 'Coq theorems over Funding/Allotment and Sem: conservation (postings of a send + kept = stated amount), non-negativity, max caps on sources and destinations, allocate_spec (each share is the floored fraction, leftover units go one each to the earliest entries, sum exact), ordered sources (a later source contributes only when the earlier gave all they can).', 'note': 'Trusted as C08.', 'technique': 'Coq proof (funding algebra, induction on source/destination trees) + differential correspondence', 'design_ref': 'DESIGN.md 5 C03'}}
+PROP = {"ready": True, 'coq': ['theories/Properties/C03.v'],
+ 'suites': [{'bin': 'obs-numscript', 'corpus': 'numscript'}],
+ 'trusted': ['hand-written models Numscript/{Funding,VM,Syntax,Compiler,Run,Sem}.v of internal/machine/{funding,allotment,portion,monetary}.go, '
+             'vm/{machine,run,stack}.go, script/compiler/*.go; tied on every run by correspondence: real compiler + machine vs model on generated '
+             'programs x variable maps x stores (bytecode, resources, sources, needed balances, lock sets, postings, metadata, printed values, error '
+             'class, panic flag), and Sem (source semantics) vs the real run end to end',
+             'the real ANTLR lexer/parser produces the AST the model consumes (parse-tree dump harness/nsx/ast.go is mechanical glue); '
+             'machine.NewValueFromString / ParsePortionSpecific enter as harness-computed tables',
+             'math/big, encoding/json are exercised, not modelled; Go aliasing inside a shared *Program is covered by the run-twice oracle only'],
+ 'assumptions': ['exact allotments: the clauses `a destination without kept leaves nothing over` (C03_send_anatomy, C03_conservation_*) and `a '
+                 'portioned source hands over exactly n` (C03_conservation_stated) have the hypotheses dest_exact / src_exact: every portioned node, '
+                 'once its portions are evaluated, has a `remaining` entry or sums to 1. This is NOT an assumption for scripts the compiler accepts: '
+                 'C03_compiler_enforces_exactness proves it from `compile sc = Some p` (compiler.VisitAllotment, model Compiler.visit_allotment, '
+                 "rejects 'the sum of portions might be less than 100%'), C03_static_exact gives the syntactic criterion. It is needed only because "
+                 'Sem by itself accepts a variable portion that makes the sum < 1 and then silently repays the unsent part '
+                 '(C03_exactness_needed_example). All other clauses (postings + leftover = amount handed over, non-negativity, caps, shares, order, '
+                 'Sem refines Spec) hold without it.',
+                 'all theorems are about sends that SUCCEED in Sem (SOk); the known over-commit failure of ordered destinations with `kept` before a '
+                 "larger `max` (F-C08c, witness C03_overcommit_example) is a spurious failure and is C08's finding, not a C03 violation.",
+                 "balances are the machine's view (the table ResolveBalances loaded, @world = 0 and never repaid); `everything its sources can "
+                 'provide` for [A *] is relative to that table (C03_capacity_account: max 0 (balance + overdraft)).'],
+ 'manifest': {'text': 'Coq theorems (closed under the global context; all amounts in Z, all lists, all source/destination trees, all balance tables '
+                      'and variable environments) over Funding/Allotment and the source semantics Sem: (d) C03_allocate_spec (shares sum to the '
+                      'amount, share_i = floor(amount*q_i) + [i < leftover], leftover < number of entries, no negative share), C03_new_allotment, '
+                      'C03_floor_share_scaling; (a)/(b) funding algebra C03_take_loop_conservation/_spec, C03_take, C03_take_fails_iff, '
+                      'C03_take_max, C03_concat, C03_reverse, C03_assemble (totals and the order of unit coins); per send C03_send_anatomy (postings '
+                      ">= 0, of the send's asset, coins of the handed-over funding = coins moved ++ coins left over, postings + leftover = handed "
+                      'over, nothing left over without `kept`), C03_conservation_stated (handed over = n, postings + kept = n, 0 <= n), '
+                      'C03_conservation_all with C03_capacity_account / C03_capacity_inorder / C03_cap_source (capacity of sources; `max m from S` '
+                      'gives min(m, S) or m with a fallback), C03_nonneg (no script produces a negative posting); (c) C03_cap_dest (entry i of an '
+                      'ordered destination receives at most max_i), C03_dest_shares (entries of a portioned destination receive allocate a (total)); '
+                      '(e) C03_order_sources_stated/_all (a later ordered source or the fallback pays only when every earlier one gave its whole '
+                      'funding), C03_order_source_max, and the refinement Sem refines Spec (Numscript/Spec.v: send_parts computed from AST + '
+                      'balances, demands from AST + amount, flow): C03_source_refines_spec, C03_dest_refines_spec, C03_order_partial (the k-th coin '
+                      'moved comes from the k-th coin provided and goes to the k-th coin demanded, every source and destination shape incl. `kept` '
+                      'and portioned sources), C03_order_normalised_partial (posting list = flow after dropping zero postings and merging adjacent '
+                      'postings with equal source and destination). C03_compiler_enforces_exactness + C03_static_exact discharge the exactness '
+                      'hypotheses for compiled scripts. Only the un-merged list equality C03_order_full_statement is left unproved. Witnesses: '
+                      'C03_overcommit_example (F-C08c), C03_exactness_needed_example.',
+              'note': 'Trusted as C08 (models tied to the real compiler + VM by correspondence on every run; C08_compile_correct transfers Sem-level '
+                      'statements to the machine).',
+              'technique': 'Coq proof (funding algebra on unit-coin sequences, Z.div arithmetic, structural induction on source/destination trees '
+                           'with custom nested induction principles, refinement to a readable flow specification) + differential correspondence',
+              'design_ref': 'DESIGN.md 5 C03; design.d/C03.md'}}
